@@ -23,6 +23,23 @@ CHECKS = {
         design_ref="DESIGN.md §4 C18",
         note="Trusts networkx graph views as ground truth for what the lineage graph contains.",
     ),
+    "C15": dict(
+        technique="controlled-scheduler history monitor: real threads gated per step (and at sys.monitoring LINE events), per-thread sequential model",
+        category="exploration",
+        text="Every read and every accept/reject outcome of real threads driving the real config object is compared with a per-thread scope model, "
+             "for all op-level interleavings of every pair of catalog programs (and a subset of triples), sampled line-level pre-emptions and "
+             "back-to-back threads that reuse a thread ident.",
+        design_ref="DESIGN.md §4 C15",
+        note="Schedules are complete only per listed program tuple at operation granularity; sub-operation gates are sampled (bound 2); a fresh instance of the config class per schedule.",
+    ),
+    "C17": dict(
+        technique="invariant monitor on WSGI request/response events over an exhaustively enumerated path space against a scratch tree with marker files",
+        category="exploration",
+        text="Every response of sqllineage.drawing.app to every enumerated path spelling x route x root setting is searched for markers of files and "
+             "directory entries outside the applicable root; inside requests must still be served (vacuity guard).",
+        design_ref="DESIGN.md §4 C17",
+        note="os.path.realpath defines 'inside'; no symlinks; escaped exceptions are counted, not judged. Exhaustive up to the stated segment bound only.",
+    ),
 }
 
 NOT_YET = {}
